@@ -69,7 +69,7 @@ P = {'id': 'C06',
                'run by replaying ~1500 histories in Coq (vm_compute) under ten caller-supplied hashers, nine capacities and nine GoldHashMap configurations. Extension: get_fast_is_get / smallmap_u8_refines_map '
                '(SmallMap<u8>::get_fast, the SSE2 key search modelled lane by lane and mask bit by mask bit, returns what get returns in every reachable state; get_fast_unmasked_refuted for the code before 3fcc283), '
                'hashstr_refines_map / hashstr_counters (HashStrMap: the wrapper over a trusted std HashMap answers like a map, len <= unique_keys <= total_inserts); String-keyed and typed cells run the same models on canonical '
-               'key numbers with the real hasher tabulated per case; easy_ext_refines_map adds EasyHashMap::get_or_insert(_with) and extend to the modelled operations. Only ZiporaHashMap under randomly seeded hashers (the default hasher parameter) is decided by the differential oracle alone (S-only).',
+               'key numbers with the real hasher tabulated per case; easy_ext_refines_map adds EasyHashMap::get_or_insert(_with) and extend, idx_batch_refines_map GoldHashIdx::insert_batch (growth to any power of two) to the modelled operations. Only ZiporaHashMap under randomly seeded hashers (the default hasher parameter) is decided by the differential oracle alone (S-only).',
  'level_note': 'Trusted: Coq kernel + vm_compute; the hand-written models and their mirror of the test hashers; harness generators and the BTreeMap oracle. The theorems are about the models; keys/values are '
                'natural numbers, Rust generics (K: Hash+Eq+Clone) are not modelled.',
  'technique': 'Coq refinement proofs (invariant + simulation over all histories, hash function universally quantified): probe-path invariant + pigeonhole for the open-addressing table, chain/relink/compaction '
